@@ -1,13 +1,61 @@
-/- line-protocol handlers of the "cf" family (stub: filled in by the family's model) -/
+/- line-protocol handlers of the "cf" family: counterfactual graph (C18), ID* (C07), IDC* (C08) -/
 import Y0.Model.Graph
 import Y0.Model.Expr
+import Y0.Model.Cg
 import Y0.Driver.Graph
 
 namespace Y0.Driver
-open Y0 Sexp
+open Y0 Sexp Y0.Cf
 
-def handleCf (op : String) (args : List Sexp) : Option Sexp :=
+/-- `(var value)` with value `m` | `p` (the key's own name) or `(name m|p)` -/
+def eventItemOf? : Sexp → Option (Var × Iv)
+  | .list [v, .atom "m"] => do let v ← Codec.varOf? v; pure (v, ⟨v.name, false⟩)
+  | .list [v, .atom "p"] => do let v ← Codec.varOf? v; pure (v, ⟨v.name, true⟩)
+  | .list [v, iv] => do pure (← Codec.varOf? v, ← Codec.ivOf? iv)
+  | _ => none
+
+def eventOf? : Sexp → Option Event
+  | .list xs => do pure (Event.ofList (← xs.mapM eventItemOf?))
+  | _ => none
+
+def eventItemToSexp (p : Var × Iv) : Sexp :=
+  if p.2.name = p.1.name then .list [Codec.varToSexp p.1, .atom (if p.2.star then "p" else "m")]
+  else .list [Codec.varToSexp p.1, Codec.ivToSexp p.2]
+
+def eventToSexp (ev : Event) : Sexp := .list (ev.map eventItemToSexp)
+
+def cfGraphToSexp (G : MG Var) : Sexp :=
+  tagged "cfgraph" [.list (G.nodes.map Codec.varToSexp),
+    .list (G.di.map fun e => .list [Codec.varToSexp e.1, Codec.varToSexp e.2]),
+    .list (G.bi.map fun e => .list [Codec.varToSexp e.1, Codec.varToSexp e.2])]
+
+def boolOf? : Sexp → Option Bool
+  | .atom "1" => some true
+  | .atom "true" => some true
+  | .atom "0" => some false
+  | .atom "false" => some false
+  | _ => none
+
+def cgResultToSexp : Except Err (MG Var × Option Event) → Sexp
+  | .ok (_, none) => tagged "ok" [.atom "inconsistent"]
+  | .ok (g, some ev) => tagged "ok" [cfGraphToSexp g, eventToSexp ev]
+  | .error e => e.toSexp
+
+def handleCf (op : String) (args : List Sexp) : Option Sexp := do
   match op, args with
+  | "make_cg", [g, ev, rev, rot] =>
+      pure (cgResultToSexp (makeCounterfactualGraph (orderWorlds (← boolOf? rev) (← asNat? rot)) (← parseGraph g) (← eventOf? ev)))
+  | "make_cg_all", [g, ev, .list strategies] => do
+      let G ← parseGraph g
+      let e ← eventOf? ev
+      let rs ← strategies.mapM fun s => match s with
+        | .list [rev, rot] => do
+            pure (cgResultToSexp (makeCounterfactualGraph (orderWorlds (← boolOf? rev) (← asNat? rot)) G e))
+        | _ => none
+      pure (tagged "ok" rs)
+  | "pw_graph", [g, ev] =>
+      pure (tagged "ok" [cfGraphToSexp (makeParallelWorldsGraph (← parseGraph g)
+        (sortWorlds (extractInterventions (← eventOf? ev).keys)))])
   | _, _ => none
 
 end Y0.Driver
